@@ -2,9 +2,11 @@
   Helper lemmas for C43 (transaction submission protocol).
 -/
 import Lumina.Model.TxSeq
+import Lumina.Spec.C43
 
 namespace Lumina.Proofs.TxSeq
 open Lumina.Model.TxSeq
+open Lumina.Spec.C43 (OTx OEv Ledger)
 
 /-! ## sub-table access -/
 
@@ -1240,6 +1242,95 @@ theorem pb_step (st : St) (op : Op) : PB st (step st op) := by
         exact h0 j k hj
     · exact h0
   | ans i a => exact h0.ans i a
+
+/-! ## the ledger's event rule is `replay` -/
+
+/-- an event as the observer sees it -/
+def oev : Event → OEv
+  | .sign i k tx => .sign ⟨i, tx.seq, tx.gas, tx.fee, k⟩
+  | .finished i r => .fin i (match r with | .rejected c => some c | _ => none)
+
+theorem lookup_put {α} (l : List (Nat × α)) (i j : Nat) (a : α) :
+    (Lumina.Spec.C43.put l i a).lookup j = if j = i then some a else l.lookup j := by
+  unfold Lumina.Spec.C43.put
+  by_cases h : j = i
+  · subst h; simp [List.lookup]
+  · have : (j == i) = false := by simp [h]
+    simp only [List.lookup, this, h, ↓reduceIte]
+    induction l with
+    | nil => rfl
+    | cons p l ih =>
+      obtain ⟨k, b⟩ := p
+      by_cases hk : k = i
+      · subst hk
+        have : (j == k) = false := by simp [h]
+        simp [List.filter, List.lookup, this, ih]
+      · have hk' : (k != i) = true := by simp [hk]
+        simp only [List.filter, hk', List.lookup]
+        split <;> simp_all
+
+/-- **the ledger's event rule is `replay`**: if the ledger believes `b`, its table of accepted
+    transactions agrees with `g` on the signed sequences, and no signature in `es` is for a
+    submission with an accepted transaction, then the ledger accepts the events exactly when
+    `replay` does, and ends up believing what `replay` computes -/
+theorem spec_events_replay (g : Nat → Nat) (es : List Event) (l : Ledger) (b : Nat)
+    (hb : l.believed = some b)
+    (hacc : ∀ j tx, l.accepted.lookup j = some tx → tx.seq = g j)
+    (hfin : ∀ j c, Event.finished j (.rejected c) ∈ es → isWrongSequence c = false → (l.accepted.lookup j).isSome)
+    (hsig : ∀ j k tx, Event.sign j k tx ∈ es → l.accepted.lookup j = none)
+    (b' : Nat) (hr : replay g b es = some b') :
+    ∃ l', Lumina.Spec.C43.events l (es.map oev) = .ok l' ∧ l'.believed = some b' ∧ l'.accepted = l.accepted := by
+  induction es generalizing l b with
+  | nil =>
+    simp only [replay, Option.some.injEq] at hr
+    exact ⟨l, rfl, by rw [hb, hr], rfl⟩
+  | cons e es ih =>
+    cases e with
+    | sign i k tx =>
+      simp only [replay] at hr
+      split at hr
+      · rename_i hseq
+        have hn := hsig i k tx (by simp)
+        simp only [List.map_cons, oev, Lumina.Spec.C43.events, Lumina.Spec.C43.event, hn, Option.isSome_none,
+          Bool.false_eq_true, ↓reduceIte, hb, hseq]
+        simp only [bne_self_eq_false, Bool.false_eq_true, ↓reduceIte]
+        exact ih { believed := some b, lastSigned := Lumina.Spec.C43.put l.lastSigned i ⟨i, b, tx.gas, tx.fee, k⟩, accepted := l.accepted, prev := l.prev } b rfl hacc
+          (fun j c hm hw => hfin j c (List.mem_cons_of_mem _ hm) hw)
+          (fun j k tx hm => hsig j k tx (List.mem_cons_of_mem _ hm)) hr
+      · cases hr
+    | finished i r =>
+      simp only [replay] at hr
+      cases r with
+      | rejected c =>
+        simp only [List.map_cons, oev, Lumina.Spec.C43.events, Lumina.Spec.C43.event]
+        by_cases hw : isWrongSequence c = true
+        · have hw' : Lumina.Spec.C43.wrongSequence c = true := hw
+          simp only [hw, ↓reduceIte] at hr
+          cases hl : l.accepted.lookup i with
+          | none =>
+            simp only []
+            exact ih l b hb hacc (fun j c hm hw => hfin j c (List.mem_cons_of_mem _ hm) hw)
+              (fun j k tx hm => hsig j k tx (List.mem_cons_of_mem _ hm)) hr
+          | some tx =>
+            simp only [hw', ↓reduceIte]
+            exact ih l b hb hacc (fun j c hm hw => hfin j c (List.mem_cons_of_mem _ hm) hw)
+              (fun j k tx hm => hsig j k tx (List.mem_cons_of_mem _ hm)) hr
+        · have hwf : isWrongSequence c = false := by simpa using hw
+          have hw' : Lumina.Spec.C43.wrongSequence c = false := hwf
+          simp only [hwf, Bool.false_eq_true, ↓reduceIte] at hr
+          have hs := hfin i c (by simp) hwf
+          cases hl : l.accepted.lookup i with
+          | none => simp [hl] at hs
+          | some tx =>
+            simp only [hw', Bool.false_eq_true, ↓reduceIte]
+            have hseq := hacc i tx hl
+            exact ih { l with believed := some tx.seq } (g i) (by simp [hseq]) hacc
+              (fun j c hm hw => hfin j c (List.mem_cons_of_mem _ hm) hw)
+              (fun j k tx hm => hsig j k tx (List.mem_cons_of_mem _ hm)) hr
+      | _ =>
+        simp only [List.map_cons, oev, Lumina.Spec.C43.events, Lumina.Spec.C43.event]
+        exact ih l b hb hacc (fun j c hm hw => hfin j c (List.mem_cons_of_mem _ hm) hw)
+          (fun j k tx hm => hsig j k tx (List.mem_cons_of_mem _ hm)) hr
 
 /-! ## `extract_sequence` -/
 
